@@ -18,7 +18,20 @@ Core Lean only. Follows, mechanism by mechanism,
   the queue entry of an address starts as the committed row, masked writes are merged into it, signed rows
   are re-signed), `.commit` (after every process of the delta ran);
 * `amaranth/sim/_pyeval.py` — a testbench reading `mem[i]` gets `read(i)`, writing `mem[i][a:b]` calls
-  `write(i, value << a, (1 << b) - (1 << a))` and commits.
+  `write(i, value << a, (1 << b) - (1 << a))` and commits; `mem[i]` itself is `MemoryData.__getitem__`
+  (`hdl/_mem.py`), which raises `IndexError` unless `0 ≤ i < depth` (`rowIndex`, `tbGet`, `tbSet`).
+
+Which configurations exist. `mkCfg` is the sequence of constructor calls (`MemoryData`, `write_port`,
+`read_port`) with their rejections; `readPortsCheck` is the transparency rule (`ReadPort.__init__`,
+asserted again by `MemoryInstance.read_port`: every port of a transparency set is a write port of this
+memory **and of the read port's own domain**). The domain process of the simulator follows it: its
+`write_vals` dictionary only has the write ports of its own domain (`wvalsDom`), so a transparency list
+naming a port of another domain has nothing to look up (a `KeyError` while compiling the real process).
+
+Coincident edges of different domains. The real simulator runs one process per domain, in an order that is
+not part of any contract; `enqueue` merges the writes of *all* domains in port-index order. For write ports
+of one domain this is exactly what the code does; for ports of different domains hitting the same granule at
+coincident edges it is one of the possible orders (the library documents that case as undefined).
 
 Reset. Memory ports have no reset: neither the netlist (`$memrd_v2` with `SRST`/`ARST` tied to 0) nor
 `ResetInserter` touch them. The simulator as found nevertheless loaded the initial value into a read port's
@@ -81,6 +94,10 @@ structure Cfg where
   /-- initial value of every read port's `data` signal (only `stepOld` looks at it) -/
   rdInit : List Int
 deriving Repr
+
+instance : Inhabited WrCfg := ⟨⟨0, 1, 1⟩⟩
+instance : Inhabited RdCfg := ⟨⟨none, []⟩⟩
+instance : Inhabited DomCfg := ⟨⟨true, .none⟩⟩
 
 /-- `ceil_log2(depth)`: the width of every address signal -/
 def Cfg.abits (c : Cfg) : Nat := ceilLog2 c.depth
@@ -150,6 +167,69 @@ def readPortCheck (dom : Option Nat) : List TranspArg → Except String Unit
 def writePortCheck (dom : Option Nat) : Except String Unit :=
   match dom with | none => .error "ValueError" | some _ => .ok ()
 
+/-- the `transparent_for` argument of read port creation, as `ReadPort.__init__` sees it: index `j` is write
+port `j` of this memory if there is one (anything else is not a port of this memory) -/
+def transpArgs (wrs : List WrCfg) (transp : List Nat) : List TranspArg :=
+  transp.map fun j => if j < wrs.length then .port true (wrs.getD j default).dom else .port false 0
+
+/-- `ReadPort.__init__` for every read port of a configuration (the same rule is asserted by
+`MemoryInstance.read_port`: index in range, same domain, none for a `"comb"` port) -/
+def readPortsCheck (wrs : List WrCfg) : List RdCfg → Except String Unit
+  | [] => .ok ()
+  | r :: rest =>
+    match readPortCheck r.dom (transpArgs wrs r.transp) with
+    | .ok _ => readPortsCheck wrs rest
+    | .error e => .error e
+
+/-- the arguments of `Memory.write_port` -/
+structure WrArg where
+  dom : Option Nat
+  gran : GranArg
+deriving Repr
+
+/-- `Memory.write_port`: the signature (granularity) is built first, then `WritePort.__init__` -/
+def mkWr (k : RowKind) (a : WrArg) : Except String WrCfg :=
+  match enWidth k a.gran with
+  | .error e => .error e
+  | .ok n =>
+    match a.dom with
+    | none => .error "ValueError"
+    | some d => .ok ⟨d, granBits k.width n, n⟩
+
+def mkWrs (k : RowKind) : List WrArg → Except String (List WrCfg)
+  | [] => .ok []
+  | a :: rest =>
+    match mkWr k a with
+    | .error e => .error e
+    | .ok w =>
+      match mkWrs k rest with
+      | .error e => .error e
+      | .ok ws => .ok (w :: ws)
+
+/-- the `Shape` the rows are read with (`Shape.cast(shape)`: aggregates are unsigned bit vectors) -/
+def RowKind.shape : RowKind → Shape
+  | .plain s => s
+  | .array e n => ⟨e * n, false⟩
+  | .castable w => ⟨w, false⟩
+
+/-- `Memory(shape=, depth=, init=)` followed by the `write_port` and `read_port` calls: the configuration, or
+the first exception. `MemoryData.Init` pads the initial rows with zeros up to the depth; the `data` signal of
+every read port starts at 0. -/
+def mkCfg (k : RowKind) (depth : Nat) (initRows : List Int) (doms : List DomCfg) (wrArgs : List WrArg)
+    (rdArgs : List RdCfg) : Except String Cfg :=
+  match initCheck (some (depth : Int)) initRows.length with
+  | .error e => .error e
+  | .ok _ =>
+    match mkWrs k wrArgs with
+    | .error e => .error e
+    | .ok wrs =>
+      match readPortsCheck wrs rdArgs with
+      | .error e => .error e
+      | .ok _ =>
+        .ok { shape := k.shape, depth := depth,
+              init := initRows.map (norm k.shape) ++ List.replicate (depth - initRows.length) 0,
+              doms := doms, rds := rdArgs, wrs := wrs, rdInit := List.replicate rdArgs.length 0 }
+
 /-! ## Simulator state and stimulus -/
 
 structure State where
@@ -182,9 +262,6 @@ deriving Repr
 
 instance : Inhabited WrIn := ⟨⟨0, 0, 0⟩⟩
 instance : Inhabited RdIn := ⟨⟨0, false⟩⟩
-instance : Inhabited WrCfg := ⟨⟨0, 1, 1⟩⟩
-instance : Inhabited RdCfg := ⟨⟨none, []⟩⟩
-instance : Inhabited DomCfg := ⟨⟨true, .none⟩⟩
 
 /-- one testbench `ctx.set(Cat(clk…, rst…), …)`: the new level of every clock and reset signal -/
 structure Event where
@@ -249,6 +326,12 @@ def wvalOf (c : Cfg) (s : State) (inp : Inputs) (e : Event) (k : Nat) : Option W
 def wvals (c : Cfg) (s : State) (inp : Inputs) (e : Event) : List (Option WVal) :=
   (List.range c.wrs.length).map (wvalOf c s inp e)
 
+/-- the `write_vals` dictionary of the process of domain `d`: only the write ports of that domain are in it
+(`if port._domain != domain_name: continue`) -/
+def wvalsDom (c : Cfg) (s : State) (inp : Inputs) (e : Event) (d : Nat) : List (Option WVal) :=
+  (List.range c.wrs.length).map fun k =>
+    if (c.wrs.getD k default).dom = d then wvalOf c s inp e k else none
+
 /-- all `slots[m].write(...)` calls of the delta, write ports in index order -/
 def enqueue (sh : Shape) (rows : List Int) : Queue → List (Option WVal) → Queue
   | q, [] => q
@@ -292,7 +375,7 @@ def stepG (old : Bool) (c : Cfg) (s : State) (inp : Inputs) (e : Event) : State 
       let i := inp.rd.getD k default
       let clocked :=
         if runs c s e d then
-          (if i.en then capture c s.rows wvs r i
+          (if i.en then capture c s.rows (wvalsDom c s inp e d) r i
            else if old && rstHigh c e d then c.rdInit.getD k 0 else cur)
         else cur
       if old && asyncRise c s e d then c.rdInit.getD k 0 else clocked
@@ -306,13 +389,30 @@ def stepOld (c : Cfg) (s : State) (inp : Inputs) (e : Event) : State := stepG tr
 
 /-! ## Testbench row access -/
 
-/-- `ctx.get(mem[i])` -/
+/-- `MemoryData.__getitem__(index)`: `operator.index(index)`, then `IndexError` unless `index in range(depth)`
+(no negative indices) -/
+def rowIndex (depth : Nat) (index : Int) : Except String Nat :=
+  if 0 ≤ index ∧ index < (depth : Int) then .ok index.toNat else .error "IndexError"
+
+/-- `ctx.get(row)` for an existing row -/
 def tbRead (s : State) (i : Nat) : Int := memRead s.rows i
 
-/-- `ctx.set(mem[i][start:stop], v)`: `write(i, v << start, (1 << stop) - (1 << start))`, then commit -/
+/-- `ctx.set(row[start:stop], v)` for row `i`: `write(i, v << start, (1 << stop) - (1 << start))`, then commit -/
 def tbWrite (c : Cfg) (s : State) (i start stop : Nat) (v : Int) : State :=
   let q := qwrite c.shape s.rows (Queue.empty s.rows.length) i (pyShl v start) ((2 : Int) ^ stop - 2 ^ start)
   { s with rows := commit s.rows q }
+
+/-- `ctx.get(mem[index])`, with the row lookup -/
+def tbGet (c : Cfg) (s : State) (index : Int) : Except String Int :=
+  match rowIndex c.depth index with
+  | .ok i => .ok (tbRead s i)
+  | .error e => .error e
+
+/-- `ctx.set(mem[index][start:stop], v)`, with the row lookup -/
+def tbSet (c : Cfg) (s : State) (index : Int) (start stop : Nat) (v : Int) : Except String State :=
+  match rowIndex c.depth index with
+  | .ok i => .ok (tbWrite c s i start stop v)
+  | .error e => .error e
 
 /-! ## What a testbench observes -/
 
